@@ -1,10 +1,11 @@
 pub mod c01;
 pub mod c02;
+pub mod c03;
 
 use crate::framework::Property;
 
 pub fn all() -> Vec<Property> {
-    vec![c01::property(), c02::property()]
+    vec![c01::property(), c02::property(), c03::property()]
 }
 
 pub fn by_id(id: &str) -> Option<Property> {
